@@ -8,6 +8,9 @@
 //!    runs vanish;
 //!  * a comment is attached to the next element start at the same level (the last one wins); comments not followed by
 //!    an element are not part of the model;
+//!  * the root's xsi:schemaLocation attribute is owned by the file's version: ArxmlFile::serialize rewrites it to the
+//!    canonical spelling for that version (set_version), so the round-trip comparison reads it as the version (the `V`
+//!    line of the dump) and normalises the attribute line; the faithfulness comparison still checks its text as loaded;
 //!  * a lenient load with warnings may omit attributes / text it warned about: then only element structure and the
 //!    attribute-name subsequence are compared.
 use super::reader::{self, Doc, Item, Node};
@@ -122,6 +125,24 @@ fn c08(out: &mut Out, i: usize, tag: &str, s: &LoadResult, l: &LoadResult) {
     }
 }
 
+/// the root's xsi:schemaLocation line (depth 0: before the first `E 1`) replaced by a fixed marker; the version is the `V` line
+fn norm_schema_location(d: &str) -> String {
+    let mut out = String::with_capacity(d.len());
+    let mut in_root = true;
+    for (k, l) in d.lines().enumerate() {
+        if k > 0 && l.starts_with("E ") {
+            in_root = false;
+        }
+        if in_root && l.starts_with("A xsi:schemaLocation=") {
+            out.push_str("A xsi:schemaLocation=<by-version>\n");
+        } else {
+            out.push_str(l);
+            out.push('\n');
+        }
+    }
+    out
+}
+
 pub fn first_diff(a: &str, b: &str) -> String {
     let la: Vec<&str> = a.lines().collect();
     let lb: Vec<&str> = b.lines().collect();
@@ -172,7 +193,7 @@ fn spec_kind(spec: Option<&CharacterDataSpec>) -> &'static str {
 fn value_matches(cd: &CharacterData, raw: &[u8], spec: Option<&CharacterDataSpec>) -> Result<(), String> {
     let preserve = matches!(spec, Some(CharacterDataSpec::String { preserve_whitespace: true, .. }));
     let t = if preserve { raw } else { reader::trim_xml_ws(raw) };
-    let expected = reader::decode(t).map_err(|e| format!("document value is not well-formed ({})", e))?;
+    let expected = reader::decode(t).map_err(|e| format!("document value is not well-formed ({}) raw={}", e.replace(' ', "-"), hex(raw)))?;
     let ok = match cd {
         CharacterData::String(s) => s.as_bytes() == &expected[..],
         CharacterData::Enum(item) => item.to_str().as_bytes() == &expected[..],
@@ -377,8 +398,13 @@ fn c01(out: &mut Out, i: usize, bytes: &[u8], tag: &str, mode: &str, r: &LoadRes
     let l = match r {
         LoadResult::Ok(l) => l,
         LoadResult::Err(e) => {
-            if strict && tag.starts_with("valid") {
+            // C01 quantifies over the inputs load_buffer ACCEPTS.  A rejected document of the plain `valid` stream is still
+            // reported (the loader's dialect shrank: every such document loaded before); for the `valid:*` classes that use
+            // XML the loader does not decode / keep, a rejection is only counted.
+            if strict && tag == "valid" {
                 out.fail("c01.valid-rejected", i, mode, tag, &format!("strict={}", err_str(e).replace(' ', "_")));
+            } else if strict && tag.starts_with("valid:") {
+                out.count(&format!("rejected.{}", tag));
             }
             return;
         }
@@ -414,6 +440,7 @@ fn c01(out: &mut Out, i: usize, bytes: &[u8], tag: &str, mode: &str, r: &LoadRes
             LoadResult::Ok(l2) => {
                 out.count("roundtrips");
                 let (d2, _) = dump_loaded(&l2);
+                let (d1, d2) = (norm_schema_location(&d1), norm_schema_location(&d2));
                 if d1 != d2 {
                     out.fail("c01.roundtrip-tree-differs", i, mode, tag, &first_diff(&d1, &d2));
                 }
@@ -483,6 +510,37 @@ pub fn main(args: &[String]) {
             c01(&mut out, i, bytes, tag, "l", &l);
         }
         wd_leave();
+    }
+    for (k, v) in out.stats.iter() {
+        println!("STAT {} {}", k, v);
+    }
+    println!("STAT fails {}", out.fails);
+}
+
+/// xml exhoracle <maxlen> <prefixhex|-> <shard> <nshards> <sets> : the oracles on every string over the token alphabet
+pub fn exh_main(args: &[String]) {
+    let maxlen: u32 = args[0].parse().unwrap();
+    let prefix = if args[1] == "-" { Vec::new() } else { unhex(&args[1]) };
+    let (sk, sn): (u64, u64) = (args[2].parse().unwrap(), args[3].parse().unwrap());
+    let sets: Vec<&str> = args[4].split(',').collect();
+    let mut out = Out { fails: 0, stats: Default::default() };
+    let total = exh_count(maxlen);
+    let mut c = sk;
+    while c < total {
+        let mut b = prefix.clone();
+        b.extend_from_slice(&exh_string(c));
+        out.count("inputs");
+        wd_enter(c);
+        let s = load(&b, true);
+        let l = load(&b, false);
+        if sets.contains(&"c02") {
+            c02(&mut out, c as usize, &b, "exh", &s, &l);
+        }
+        if sets.contains(&"c08") {
+            c08(&mut out, c as usize, "exh", &s, &l);
+        }
+        wd_leave();
+        c += sn;
     }
     for (k, v) in out.stats.iter() {
         println!("STAT {} {}", k, v);
